@@ -98,7 +98,7 @@ def coq_make(targets, timeout=1500, jobs=None):
     """returns (ok, log)."""
     os.makedirs(os.path.join(COQ, "extracted"), exist_ok=True)
     make_coqproject()
-    jobs = jobs or int(os.environ.get("VERIF_JOBS", "8"))
+    jobs = jobs or int(os.environ.get("VERIF_JOBS", "16"))
     # Props files are always recompiled so that Print Assumptions is re-emitted
     for t in targets:
         if "/Props/" in t or "/Extract/" in t:
@@ -513,7 +513,7 @@ def coq_cases(tag, imports, fexpr, cases, shard=400, timeout=900, jobs=None):
     from concurrent.futures import ThreadPoolExecutor
     d = os.path.join(WORK, "cases")
     os.makedirs(d, exist_ok=True)
-    jobs = jobs or int(os.environ.get("VERIF_JOBS", "8"))
+    jobs = jobs or int(os.environ.get("VERIF_JOBS", "16"))
     shards = [(k, cases[k:k + shard]) for k in range(0, len(cases), shard)]
 
     def run(sh_):
